@@ -297,6 +297,29 @@ func (ch c20) Run(c *core.Ctx) {
 			if len(msgs[1].OIDs) != len(res) {
 				c.Violate("describe-count", "ParameterDescription count differs from ParseParameters length", fmt.Sprintf("query %q: announced %d, returned %d", trim(q, 100), len(msgs[1].OIDs), len(res)), cs)
 			}
+			if idx%3 == 0 && len(res) < 8 {
+				// the statement is bound - with the number of values it declares, or fewer, or more (a server
+				// may refuse those) - and described again: what it announces is still what it declares
+				nv := []int{len(res), len(res) + 1 + idx%3, max(0, len(res)-1), 2}[(idx/3)%4]
+				vals := make([][]byte, nv)
+				for j := range vals {
+					vals[j] = []byte(fmt.Sprint(j))
+				}
+				out, closed := cl.Step(append(append(append(pg.Bind("", name, nil, vals, nil), pg.Sync()...), pg.Describe('S', name)...), pg.Sync()...))
+				if hangCheck(c, cl, cs) {
+					return
+				}
+				msgs, err := parseAll(out)
+				k := pg.Types(msgs)
+				if err != nil || closed || !strings.HasSuffix(k, "ZtnZ") {
+					c.Violate("describe", "Bind/Sync/Describe cycle failed", fmt.Sprintf("query %q, %d values bound: %v closed=%v reply %s", trim(q, 100), nv, err, closed, trim(replyKinds(out), 200)), cs)
+					return
+				}
+				c.Count("describe_counts_compared_after_a_bind", 1)
+				if got := len(msgs[len(msgs)-3].OIDs); got != len(res) {
+					c.Violate("describe-count", "ParameterDescription count differs from ParseParameters length after the statement was bound", fmt.Sprintf("query %q: %d values bound, announced %d, returned %d", trim(q, 100), nv, got, len(res)), cs)
+				}
+			}
 		}
 	}
 	cl.Finish()
